@@ -177,6 +177,39 @@ CHECKS = {
 
 NOT_YET = {}
 
+# what later rounds added to a check (appended to its level text)
+EXTRA = {
+ "C03": " The table also covers chained assignment through locals and registers, compound assignment (+= -= *=) to every target type, and "
+        "every context with a QEMU bitops macro invocation as the source expression.",
+ "C05": " Generated programs include chained assignments whose right-hand side reads the targets, compound assignment to 8/16-bit locals, "
+        "if/else arms and loop bodies without braces, and value-unused `v++;` / `({...});` statements as arms and bodies.",
+ "C06": " Also: unbraced arms and loop bodies that read the loop counter, and 132 templates with value-producing operations in both arms "
+        "of a constant-condition ?: followed by another one in the same expression.",
+ "C07": " Also: every spelling read inside arithmetic and a comparison (width of explicit pairs), and loads used without their wrapping "
+        "cast in 32/64-bit contexts.",
+ "C08": " Arguments are leaves or direct macro invocations; 12 template callees (PC-only, slot, immediates, registers, loads) must yield a "
+        "definition that declares the packet/instruction variables it uses.",
+ "C09": " Also 19 compile-time-constant conditions that are not bare literals (casts of literals, !, folded arithmetic) in 6 shapes.",
+ "C10": " Templates: operand spelling x 18 read/write contexts, literal shape x context, 12 truth-valued expression shapes x 21 consumers; "
+        "memory keys must be 32-bit bitvectors.",
+ "C11": " Templates as for C10 (the C names derived from operand text); plugin calls must receive their context object (bundle / pkt / hi) "
+        "first; the text returned right after a compilation that failed with hybrids pending must be well-formed.",
+ "C12": " Templates as for C10.",
+ "C14": " A third entry point (compile_insn with parsed_insns) is driven and instruction names are reused for different behaviours.",
+ "C15": " 25 statement-level constructs now (each keyword with and without labels, braces and bodies); locals are renamed to the "
+        "transformer's internal op names (scanned from its source): the number of effects must not change and all stay reachable; runs of "
+        "statements are wrapped into `({ ...; });`; the bodies of bundled and template sub-routines must have no unreachable effect.",
+ "C16": " About 600 templates (dead loads, narrow compound assignments, constant conditions, truth-valued consumers) are compared across "
+        "the layouts as well.",
+ "C17": " 23 pairs of texts that differ only in white space (`- -x` / `--x`) are compiled in both orders on one Compiler and compared "
+        "with brand-new compilers.",
+ "C18": " The order of the returned entries is compared with the sequential parse as well.",
+ "C19": " Malformed lines (cut anywhere, text after the closing parenthesis) must be rejected by the splitter and the loader; compounds "
+        "with text before/between/after the markers are loaded from generated files. An atheris (libFuzzer) byte-level target for the "
+        "three string helpers runs as a supplementary part.",
+ "C20": " Generated macro files contain CONFIG_USER_ONLY blocks with #else branches.",
+}
+
 def main():
     props = [json.loads(l) for l in open(os.path.join(HERE, "properties.jsonl"))]
     ids = [p["id"] for p in props]
@@ -192,7 +225,7 @@ def main():
             "evidence_file": f"evidence/{pid}.json",
             "replay_cmd_template": f"./check {pid} --replay {{path}}",
             "engine": c.get("engine", "vlib"),
-            "level_claimed": {"category": "exploration", "text": c["text"], "design_ref": "DESIGN.md section " + c["design"]},
+            "level_claimed": {"category": "exploration", "text": c["text"] + EXTRA.get(pid, ""), "design_ref": "DESIGN.md section " + c["design"]},
             "level_note": c["note"],
             "technique": c["technique"],
         })
